@@ -94,6 +94,10 @@ struct Hist {
     nontrivial: HashSet<u64>,
 }
 impl Hist {
+    /// running counter (used to sample follow-up observations)
+    fn adds_seen(&mut self) -> u64 {
+        self.rows
+    }
     fn new(dir: &str, prefix: &str, kind: &'static str, chunk: usize) -> Self {
         Hist {
             out: TraceOut::new(dir, prefix, chunk),
@@ -233,9 +237,19 @@ fn mk_nat(ds: &[u64]) -> Natural {
 fn nat_add(h: &mut Hist, a: &Natural, b: &Natural) {
     let (ja, jb) = (nat_json(a), nat_json(b));
     let (a2, b2) = (a.clone(), b.clone());
-    let r = nat_res(catch(move || a2 + b2));
+    let sum = catch(move || a2 + b2);
+    let keep = sum.as_ref().ok().cloned();
+    let r = nat_res(sum);
     h.note("add", &[&ja, &jb], &r);
     h.emit(json!({"ev": "nat_add", "a": ja, "b": jb, "res": r}));
+    // a sum is an operand like any other (its internal digit array may be longer than
+    // the value needs): the conversions of every third sum are observed as well
+    if let Some(s) = keep {
+        if !s.is_nan() && h.adds_seen() % 3 == 0 {
+            nat_f64(h, &s);
+            nat_try(h, &s);
+        }
+    }
 }
 
 fn nat_cmp(h: &mut Hist, a: &Natural, b: &Natural) {
